@@ -7,7 +7,7 @@
 //!
 //! CLI: `gen <seed> <sequences> <out> <raw|typed> <valid|mutate> [codec]`, `replay <ops> <out>`.
 //! The decoders always run in a worker child process: some of them `reserve` what a length field announces and
-//! the failed allocation aborts the process (reported as `abort`); allocations of 256 MiB or more always fail
+//! the failed allocation aborts the process (reported as `abort`); allocations of 293 000 000 bytes or more always fail
 //! (`Limited` allocator), so that this does not depend on the machine.
 use std::io::Write;
 use std::panic::{catch_unwind, AssertUnwindSafe};
@@ -1291,7 +1291,7 @@ extern "C" {
 /// Deterministic stand-in for "the machine does not have that much memory": any single allocation of
 /// `ALLOC_LIMIT` bytes or more fails (the caller then aborts through `handle_alloc_error`), everything below is
 /// served by the system allocator. The Lean model uses the same constant.
-const ALLOC_LIMIT: usize = 1 << 28;
+const ALLOC_LIMIT: usize = 293_000_000; // deliberately not near a multiple of 2^24 (single-byte mutations of length fields)
 struct Limited;
 unsafe impl std::alloc::GlobalAlloc for Limited {
     unsafe fn alloc(&self, l: std::alloc::Layout) -> *mut u8 {
